@@ -38,6 +38,7 @@ func props() []prop {
 			Assumptions: with("virtual time (testing/synctest); global math/rand pinned per scenario for replay"),
 			Units: []unit{
 				{Check: "gossipsim", Pkg: "internal/cluster", Shards: [2]int{16, 16}, Timeout: [2]time.Duration{10 * min, 60 * min}, CrashKey: "c18-crash", OnlyKinds: []string{"c18-", "harness-"}},
+				{Check: "gossipreal", Pkg: "internal/cluster", Shards: [2]int{1, 1}, Timeout: [2]time.Duration{10 * min, 10 * min}, CrashKey: "c18-crash", OnlyKinds: []string{"c18-", "harness-"}},
 			},
 		},
 		{
